@@ -50,7 +50,7 @@ func init() {
 func c02Cases(tier string, seed int64) []string {
 	n := 12
 	if tier == "thorough" {
-		n = 160
+		n = 480
 	}
 	var l []string
 	for i := 0; i < n; i++ {
